@@ -50,7 +50,7 @@ var defs = map[string]checkDef{
 	"C02": {Engine: "A", Pkg: "./enga", MinEvals: 1000},
 	"C03": {Engine: "A", Pkg: "./enga", MinEvals: 200},
 	"C04": {Engine: "A", Pkg: "./enga", MinEvals: 200},
-	"C05": {Engine: "B", Pkg: "./engb", MinEvals: 1440, Exhaust: true},
+	"C05": {Engine: "B", Pkg: "./engb", MinEvals: 4320, Exhaust: true},
 	"C07": {Engine: "B", Pkg: "./engb", MinEvals: 100},
 	"C08": {Engine: "B", Pkg: "./engb", MinEvals: 100},
 	"C09": {Engine: "B", Pkg: "./engb", MinEvals: 100},
